@@ -3,3 +3,4 @@
 pub mod wire;
 pub mod fold;
 pub mod tok;
+pub mod sess;
